@@ -147,13 +147,16 @@ pub mod model {
         /// up to two queries (by index) whose message octets are captured for comparison
         pub cap_idx: [usize; 2],
         pub cap: [[u8; CAP_LEN]; 2],
+        /// number of random draws so far (used by the rand model's `fixedrand` mode; kept here so
+        /// that the whole build has exactly ONE mutable static)
+        pub draw_n: usize,
     }
     #[cfg(feature = "prog")]
     pub const CAP_LEN: usize = 448;
     #[cfg(feature = "prog")]
     pub static mut ORACLE: Oracle = Oracle {
         on: false, n: 0, ans: [0; 12], msg_len: [0; 12], dst_len: [0; 12],
-        cap_idx: [usize::MAX; 2], cap: [[0; CAP_LEN]; 2],
+        cap_idx: [usize::MAX; 2], cap: [[0; CAP_LEN]; 2], draw_n: 0,
     };
     #[cfg(feature = "prog")]
     pub fn oracle() -> &'static mut Oracle {
